@@ -70,7 +70,7 @@ def main():
                 json.dump(meta, open(mp, "w"), indent=1)
             finally:
                 sh(["git", "-C", "/repo", "worktree", "remove", "--force", wt])
-        sh(["git", "checkout", "--", "lean/PyroModel/Gen/%s.lean" % pid], cwd=V)
+        sh(["git", "checkout", "--"] + sorted(glob.glob(os.path.join(V, "lean/PyroModel/Gen/%s*.lean" % pid))), cwd=V)
 
 
 main()
